@@ -516,14 +516,16 @@ Fixpoint exec (w : world) (s : st) (en : env) (tr : trace) {struct s} : option (
       end
   end.
 
-Fixpoint exec_block (w : world) (l : list st) (en : env) (tr : trace) : option (env * trace) :=
-  match l with
-  | [] => Some (en, tr)
-  | s1 :: l' => match exec w s1 en tr with
-                | Some (en', tr') => exec_block w l' en' tr'
-                | None => None
-                end
-  end.
+(* the same block executor as the local one of exec (convertible with it) *)
+Definition exec_block (w : world) : list st -> env -> trace -> option (env * trace) :=
+  fix exec_block (l : list st) (en : env) (tr : trace) : option (env * trace) :=
+    match l with
+    | [] => Some (en, tr)
+    | s1 :: l' => match exec w s1 en tr with
+                  | Some (en', tr') => exec_block l' en' tr'
+                  | None => None
+                  end
+    end.
 
 (* =========================================================================================== *)
 (* Occurrences of names *)
